@@ -32,6 +32,8 @@ class Ctx:
         self.rng = random.Random(f'{prop}/{seed}/{shard}/{nshards}')
         self.quick = tier == 'quick'
         self.counters = {}
+        self.distinct = set()
+        self.samples = []
 
     def count(self, key, n=1):
         self.counters[key] = self.counters.get(key, 0) + n
@@ -76,7 +78,11 @@ def run_shard(args):
                     diffs.append(None)
         t_impl = time.time() - t0
         extra_fail = mod.extra_checks(ctx) if hasattr(mod, 'extra_checks') else []
-        return {'ok': True, 'cases': len(cases), 'evals': evals, 'distinct': list(distinct),
+        distinct.update(ctx.distinct)
+        if shard == 0:
+            samples = (samples + ctx.samples)[:4]
+        evals += ctx.counters.pop('_evals', 0)
+        return {'ok': True, 'cases': len(cases) + ctx.counters.pop('_cases', 0), 'evals': evals, 'distinct': list(distinct),
                 'diffs': diffs, 'samples': samples, 'counters': ctx.counters,
                 't_model': t_model, 't_impl': t_impl, 'extra_fail': extra_fail}
     except Infra as e:
@@ -88,6 +94,12 @@ def run_shard(args):
 def replay(prop, path):
     mod = importlib.import_module('p' + prop)
     r = json.load(open(path))
+    if hasattr(mod, 'replay') and r.get('scenario') is not None:
+        ok, out = common.lake_build(['driver'])
+        if not ok:
+            print(out[-3000:])
+            return 2
+        return mod.replay(r)
     ops = r.get('ops')
     if not ops:
         print(f'replay {path}: kind={r.get("kind")} obligation={r.get("obligation")} (no concrete input)')
@@ -223,6 +235,7 @@ def run_check(prop, tier, seed, workdir, t_start, jobs):
     known, fixed = common.load_known()
     known = [(k, t) for (p, k, t) in known if p == prop]
     violations, known_hits = [], {}
+    broken_corr = []
     driver = common.ModelDriver()
     n_more = sum(1 for d in raw_diffs if d is None)
     for d in [d for d in raw_diffs if d is not None]:
@@ -242,6 +255,13 @@ def run_check(prop, tier, seed, workdir, t_start, jobs):
                            'key': key, 'meta': d['meta']})
     for e in extra_fail:
         key = e.get('key', 'oracle')
+        if e.get('kind') == 'broken-correspondence':
+            # model and implementation differ on something the property does not itself demand
+            msg = 'correspondence broken: ' + json.dumps(e.get('diff', key), default=str)[:700]
+            if not any(p_.startswith('correspondence broken') for p_ in problems):
+                problems.append(msg)
+                broken_corr.append(e)
+            continue
         if any(k == key for (k, t) in known):
             known_hits.setdefault(key, [t for (k, t) in known if k == key][0])
         else:
@@ -268,6 +288,7 @@ def run_check(prop, tier, seed, workdir, t_start, jobs):
         path = os.path.join(VERIF, 'replays', f'{prop}-{seed}-{nrep}.json')
         common.write_json(path, {'property': prop, 'kind': 'broken-obligation', 'seed': seed,
                                  'tier': tier, 'ops': None, 'obligation': problems,
+                                 'correspondence_witness': broken_corr[:1],
                                  'searched': {'cases': ncases, 'evaluations': evals}})
         for pmsg in problems:
             print(f'obligation broken: {pmsg[:600]}')
